@@ -19,6 +19,9 @@ use linfa::DatasetBase;
 use ndarray::{Array1, Array2, Axis};
 use std::collections::{BTreeMap, HashMap};
 
+#[path = "c20_more.rs"]
+mod more;
+
 // ------------------------------------------------------------------------------------------------
 // digests
 
@@ -1085,5 +1088,6 @@ pub fn run(em: &mut Em, rng: &mut Rng) {
     labels_cases(em, rng);
     hier_cases(em, rng);
     rng_clone_cases(em, rng);
+    more::vocab_cases(em, rng);
     estimator_runs(em, seed);
 }
